@@ -127,8 +127,13 @@ def alts_match(evs, end, alts):
                 ok = False
                 break
             for (jt, jk), v in zip(e['args'], vals):
+                if v is None:
+                    continue        # the reference leaves this value open on this alternative
                 if jk in ('int', 'bool'):
                     cs.append('(= %s %s)' % (jt, v))
+                elif jk == 'f64':
+                    # floating-point observation: equal as IEEE values (any NaN equals any NaN, the sign of zero is distinguished)
+                    cs.append('(or (and (fp.isNaN %s) (fp.isNaN %s)) (= %s %s))' % (jt, v, jt, v))
                 elif jk == 'str':
                     # v: list of byte terms / ints, or a Python str
                     want = [str(ord(ch)) for ch in v] if isinstance(v, str) else [str(x) for x in v]
@@ -529,7 +534,7 @@ def _decide(rep, z3, base, cond, p, c, names, why, jsv, ref):
     if r == 'unknown':
         return _inconclusive(rep, c, 'solver unknown/timeout on comparison')
     if r == 'sat':
-        rep.violations.append({'tag': c.tag, 'why': why, 'model': model, 'values': vals, 'case': c, 'term': p['term']})
+        rep.violations.append({'tag': c.tag, 'why': why, 'model': model, 'values': vals, 'case': c, 'term': p['term'], 'inputs': p['inputs']})
         return 'violation'
     if not classes:
         return 'ok'
@@ -607,6 +612,9 @@ def replay_program(case, model):
                     continue
             elif gotype in ('float32', 'float64'):
                 if not isinstance(v, dict):
+                    continue
+                ew = v['fp'][2] if 'fp' in v else v.get('eb')
+                if ew != (8 if gotype == 'float32' else 11):
                     continue
             else:
                 continue
@@ -723,6 +731,87 @@ def replay(case, model, outdir, minify=False, keep_all=False):
     with open(os.path.join(outdir, 'transcript.json'), 'w') as f:
         json.dump(info, f, indent=1)
     return info
+
+
+def smt_value(v):
+    if isinstance(v, bool):
+        return 'true' if v else 'false'
+    if isinstance(v, int):
+        return core.lit(v)
+    if isinstance(v, dict) and 'fp' in v:
+        sb, eb, ew, mb, mw = v['fp']
+        return '(fp #b%s #b%s #b%s)' % (format(sb, 'b'), format(eb, '0%db' % ew), format(mb, '0%db' % mw))
+    if isinstance(v, dict) and 'fpspecial' in v:
+        return '(_ %s %d %d)' % (v['fpspecial'], v['eb'], v['sb'])
+    return None
+
+
+def f64_literal(x):
+    import struct
+    bits = struct.unpack('>Q', struct.pack('>d', x))[0]
+    return '(fp #b%s #b%s #b%s)' % (format(bits >> 63, 'b'), format((bits >> 52) & 0x7ff, '011b'), format(bits & ((1 << 52) - 1), '052b'))
+
+
+def concrete_events(case, lines):
+    """Printed lines of a real run -> events in the shape the references consume (tag + typed concrete values)."""
+    import re as _re
+    text = (''.join(case.decl) if isinstance(case.decl, (list, tuple)) else case.decl) + case.body
+    t64 = set(_re.findall(r'VerifOut[IU]64\("(\w+)"', text))
+    tf = set(_re.findall(r'VerifOutF(?:64|32)\("(\w+)"', text))
+    evs = []
+    for ln in lines:
+        toks = ln.split(' ')
+        tag, rest = toks[0], toks[1:]
+        args = []
+        if tag in t64 and len(rest) == 2 and all(_re.fullmatch(r'-?\d+', t) for t in rest):
+            args.append((core.lit(int(rest[0]) * 4294967296 + int(rest[1])), 'int'))
+        elif tag in tf and len(rest) == 1:
+            try:
+                args.append((f64_literal(float(rest[0].replace('Infinity', 'inf'))), 'f64'))
+            except ValueError:
+                args.append(([ord(ch) for ch in rest[0]], 'str'))
+        else:
+            for t in rest:
+                if t in ('true', 'false'):
+                    args.append((t, 'bool'))
+                elif _re.fullmatch(r'-?\d+', t):
+                    args.append((core.lit(int(t)), 'int'))
+                else:
+                    args.append(([b for b in t.encode('utf8', 'surrogateescape')], 'str'))
+        evs.append({'k': 'log', 'tag': tag, 'args': args, 'raw': ln})
+    return evs
+
+
+def confirm_against_reference(case, v, js_lines, js_end, z3):
+    """True if NO alternative of the reference produces the real JavaScript output for the model's inputs."""
+    ref = case.ref({})
+    if ref.get('trace') is None:
+        return None
+    evs = concrete_events(case, js_lines)
+    if js_end == 'normal':
+        end = ('normal', None)
+    elif js_end.startswith('panic'):
+        end = ('panic', js_end)
+    elif js_end.startswith('exit'):
+        end = ('exit', int(js_end.split()[1]))
+    else:
+        end = ('panic', js_end)
+    try:
+        m = ref['trace'](evs, end, v.get('inputs') or {})
+    except Mismatch:
+        m = 'false'
+    lines = [gospec.PREAMBLE] + core.input_decls(v.get('inputs') or {})
+    for k, val in v['model'].items():
+        sv = smt_value(val)
+        if sv is not None and k in (v.get('inputs') or {}) and (v['inputs'][k].get('def') is None):
+            lines.append('(assert (= %s %s))' % (k, sv))
+    lines.append('(assert %s)' % (m or 'false'))
+    r, _, _ = z3.solve(lines)
+    if r == 'unsat':
+        return True
+    if r == 'sat':
+        return False
+    return None
 
 
 def normalise_output(rc, out, err):
